@@ -27,7 +27,8 @@ def plan(prop, tier):
     if prop == "C01":
         if q:
             fam = fam + [("hourly", "solar_tf"), ("daily", "custommaps"), ("caltrack", "caltrack")]      # C01 names the CalTRACK family
-        return dict(scen=[("store", fam)] + ([] if q else [("free", fam)]), per=(5 if q else 16),
+        two = [f for f in fam if f in (("hourly", "default"), ("daily", "legacy"))] if q else [f for f in fam if f[0] != "caltrack"]
+        return dict(scen=[("store", fam), ("store2", two)] + ([] if q else [("free", fam)]), per=(5 if q else 16),
                     rule="histories fit/sweep/save/(restart)/load/sweep/resave per family and profile; distinct = distinct (abstract history, family, profile)",
                     extra=["document equality is JSON-value equality", "the formula clause of C01 is decided by the DailyCurve module (C11/C12 checks), not here"])
     if prop == "C02":
@@ -36,7 +37,7 @@ def plan(prop, tier):
                          "overwriting frames handed out; whole-state projection compared after every call" + "; plus free-form histories (template T_free: every operation allowed at every position, 300 behaviours per family from tlc -simulate with the invariants checked along them, depth 12) chosen by feature cover",
                     extra=[])
     if prop == "C05":
-        return dict(scen=[("obs", fam)], per=(8 if q else 24),
+        return dict(scen=[("obs", fam)], per=(10 if q else 28),
                     rule="histories of three predicts over 15 (weather, observed-variant) reports - variants {orig, x3, shuffled, 30% NaN, zeros, all NaN, absent} of a year, a part-year and a weather feed with gaps - in TLC-enumerated orders, chosen by feature cover; "
                          "prediction hashes taken on the rows every variant produces",
                     extra=["compared on probe rows (those not blanked in the 30%-NaN variant), which every variant predicts"])
